@@ -85,6 +85,12 @@ def run(ctx):
     st = {(o[0], o[1].split("|")[0].split("::")[1]): o[2] for o in frep.obligations}
     if st.get(("FXL", "spin")) != "VIOLATED" or st.get(("FXE", "bad")) != "VIOLATED" or st.get(("FXL", "good")) != "held":
         raise AnalysisBroken("R-LOOP positive control failed: %s" % st)
+    frep = Report("fixture")
+    loops.judge_rotation_searches(fx, lf, frep, rule="FXR")
+    loops.judge_shift_searches(fx, lf, frep, rule="FXS")
+    st = {(o[0], o[1].split("|")[0].split("::")[1]): o[2] for o in frep.obligations}
+    if st != {("FXR", "rot_bad"): "VIOLATED", ("FXR", "rot_good"): "held", ("FXS", "log2_bad"): "VIOLATED", ("FXS", "log2_good"): "held"}:
+        raise AnalysisBroken("rotation / shift search positive control failed: %s" % st)
     from rules_common import check_snprintf_lengths as _csl
     frep = Report("fixture")
     _csl(fx, fx.tu("fmtlen").main_functions(), frep, "FXF")
@@ -139,6 +145,7 @@ def run(ctx):
     n = loops.classify_and_judge(db, libfuncs, rep, rule="D3-R-LOOP")
     ne = loops.judge_equality_exits(db, libfuncs, rep, rule="D3-R-LOOP-EQ")
     loops.judge_rotation_searches(db, libfuncs, rep, rule="D3-R-LOOP-ROTATE")
+    loops.judge_shift_searches(db, libfuncs, rep, rule="D3-R-LOOP-SHIFT")      # no instance on today's tree: the fixture twins are the positive control
     rep.extra["loops_classified"] = n
     rep.extra["equality_exit_loops"] = ne
     rep.floor("D3-R-LOOP", 800)
